@@ -8,6 +8,7 @@ import AITB.Props.C20c
 import AITB.Props.C20d
 import AITB.Props.C20e
 import AITB.Props.C20f
+import AITB.Props.C20g
 import AITB.Gen.C20
 namespace AITB.Trie
 
